@@ -307,6 +307,9 @@ func farmClient(f *Farm, bindPort int, T time.Duration, udpIDs, tcpIDs []uint32)
 	return farmClientBind(f, netip.AddrPortFrom(netip.AddrFrom4([4]byte{127, 0, 0, 1}), uint16(bindPort)), T, udpIDs, tcpIDs)
 }
 
+// the listen port clients of the farm are configured with
+var farmListenPort uint16 = 60001
+
 func farmClientBind(f *Farm, bindAP netip.AddrPort, T time.Duration, udpIDs, tcpIDs []uint32) uhppote.IUHPPOTE {
 	devs := []uhppote.Device{}
 	for _, id := range udpIDs {
@@ -317,7 +320,7 @@ func farmClientBind(f *Farm, bindAP netip.AddrPort, T time.Duration, udpIDs, tcp
 	}
 	bind := types.BindAddrFrom(bindAP.Addr(), bindAP.Port())
 	bc := types.BroadcastAddrFrom(netip.AddrFrom4([4]byte{127, 0, 0, 1}), uint16(f.Port))
-	return uhppote.NewUHPPOTE(bind, bc, types.ListenAddrFrom(netip.AddrFrom4([4]byte{127, 0, 0, 1}), 60001), T, devs, farmDebug)
+	return uhppote.NewUHPPOTE(bind, bc, types.ListenAddrFrom(netip.AddrFrom4([4]byte{127, 0, 0, 1}), farmListenPort), T, devs, farmDebug)
 }
 
 // ---- process resources ----
